@@ -182,10 +182,11 @@ def parse_iter(data: bytes) -> dict[str, str]:
         raise Malformed(f'last line incomplete: {text[-40:]!r}')
     out = {}
     for line in text.split('\n')[:-1]:
-        if line.count('=') != 1:
-            raise Malformed(f'line without exactly one "=": {line[:60]!r}')
-        nm, val = line.split('=')
-        nm = nm.strip()
+        # the value never holds the separator, a name may (names are free strings): the LAST ' = ' separates them, and the
+        # name is what stands before it, blanks included
+        nm, sep, val = line.rpartition(' = ')
+        if not sep:
+            raise Malformed(f'line without the separator " = ": {line[:60]!r}')
         try:
             v = float(val)
         except ValueError:
